@@ -135,6 +135,7 @@ TCommitRet(e) ==
          THEN "C03_ReceiptsOverlap"
        ELSE IF e.hw < e.last THEN "C03_ReceiptHWBelowLast"
        ELSE IF <<n, e.cmd>> \in DOMAIN cmdSnap /\ cmdSnap[<<n, e.cmd>>] > e.auth THEN "C04_AckUnderDeposedAuthority"
+       ELSE IF e.auth # e.exp THEN "C04_AckForStaleExpectation"
        ELSE IF e.auth \in wfAuths THEN "C04_AckUnderWriteFence"
        ELSE IF \E i \in e.first..e.last : log[n][i].t # e.auth THEN "C04_ReceiptAuthorityMismatch"
        ELSE ""
